@@ -71,6 +71,14 @@ func init() {
 		QuickRuns: 1200, QuickSecs: 75, ThorRuns: 20000, ThorSecs: 900, Batch: 12,
 	})
 	Register(&Check{
+		ID: "C10", Engine: "netsim",
+		Real:      []string{"threshold.Scheme dispatcher (HandleMessage, handleSync, handleMPC, ack decoding)", "msg.Box.HandleMessage", "disc.Member.HandleMessage", "rbc.Receiver.Receive", "mpc/bls and mpc/ps ClassifyMsg/OnMsg", "bls.Verifier.Init/Verify/AggregateSignatures, ps.TPS.Sign, ps.Verifier.Init/Verify, ps.Prover.Init/UnBlind (entry-point part)"},
+		Stub:      append([]string{"MPC backend (scripted) in part of the runs", "garbage source: structure-aware mutations of real in-flight messages + raw random bytes, sent by Byzantine participants, a configured outsider and an unknown id"}, e1Stub...),
+		Rule:      "one case = one seeded session (scripted/BLS/PS, loud/silent, KeyGen/Sign, n=2..4) with 20..160 garbage messages (15 mutation kinds: every truncation length, extension, empty, nil, type, 7 topic shapes incl. nil and <8 bytes, acknowledgement fields incl. digest lengths 0..64, first/second payload byte sweep, raw random, bit flip, synchroniser tails of every length around the tag, oversized view) injected at seeded points in the states idle / synchronising / protocol / finished; in mode 'foreign' (other topics, non-participants) the session must also complete; 15% of the runs additionally sweep ~600 DER-structure-aware and byte-level mutants of valid public parameters, signatures, blinded requests, proofs and partial signatures through the client-facing entry points (input mutation, not schedule exploration); distinct = distinct schedule fingerprint; non-trivial = garbage was injected while a session was synchronising or running",
+		Assume:    []string{"the transport authenticates the source (garbage never carries an honest participant's id unless that participant is the Byzantine one of the run)", "the handshake surface of net is covered by the connsim engine (C16/C17), not here"},
+		QuickRuns: 2500, QuickSecs: 100, ThorRuns: 50000, ThorSecs: 1200, Batch: 30,
+	})
+	Register(&Check{
 		ID: "C11", Engine: "netsim", Level: "fault_enumeration",
 		Real:      []string{"threshold.Scheme (KeyGen/Sign entry paths, result/ctx select)", "disc.Member", "disc.SilentSynchronizer", "rbc.Receiver", "msg.Box", "mpc/bls TBLS.KeyGen", "mpc/ps TPS.KeyGen"},
 		Stub:      append([]string{"MPC backend (scripted, lock-step rounds) in part of the runs"}, e1Stub...),
